@@ -373,7 +373,9 @@ def run_coq_cases(suite, imports, runner, case_terms, shard=150, keep=False):
         path = os.path.join(GEN, name + ".v")
         with open(path, "w") as fh:
             fh.write(imports + "\nOpen Scope Z_scope.\n")
-            fh.write("Definition cases := [\n" + ";\n".join(part) + "\n].\n")
+            # the element type is fixed by the runner's domain: a first case with empty lists must not leave it open
+            fh.write("Definition tyof {A : Type} (f : A -> ov) : Type := A.\n")
+            fh.write(f"Definition cases : list (tyof {runner} * ov) := [\n" + ";\n".join(part) + "\n].\n")
             fh.write(f"Eval vm_compute in mismatches {runner} cases.\n")
         files.append((k, path, len(part)))
     procs = []
